@@ -49,7 +49,22 @@ func execDelete(ctx context.Context, env *Env, st *State, op Op, rep *kit.Report
 		c := st.M.Chans[k]
 		same, err := contentEquals(ctx, env.DB, c)
 		if err != nil {
-			return kit.Fail("read-error", "%s: read after failed delete: %v", where, err)
+			// same classification as CheckRead: a request that failed part-way may have
+			// deleted [a,b) from the index channel and from this data channel, which is the
+			// layout of the listed snap-gap finding
+			sig := "read-error"
+			if !c.Spec.IsIndex && strings.Contains(err.Error(), "is not continuous in the index") {
+				tm := st.M.Clone()
+				all := map[uint32]bool{}
+				for _, kk := range op.Channels {
+					all[kk] = true
+				}
+				ApplyDelete(tm, op, all)
+				if dataDomainOutsideIndex(tm, tm.Chans[k]) {
+					sig = "read-error:data-domain-start-outside-index-coverage"
+				}
+			}
+			return kit.Fail(sig, "%s: read after failed delete: %v", where, err)
 		}
 		if same {
 			continue
